@@ -27,6 +27,8 @@ def psd_append_by_phase(ctx, nph=2, ncls=2, order=(0, 1)):
             calls.append((precPhase, [x * 1 for x in g]))
             xa = np.array([ctx.uf("xa_" + str(precPhase), T, gi, rng=(0.01, 0.2)) for gi in g]) if ctx.mode == "concrete" else \
                 __import__("vk.symnp", fromlist=["to_obj"]).to_obj([ctx.uf("xa_" + str(precPhase), T, gi, rng=(0.01, 0.2)) for gi in g])
+            for v in xa:
+                ctx.assume(v > 0)        # a valid answer (a composition), not the -1 "no result" sentinel (that case: C03.update_psd_binary_faults)
             xb = xa * 0.0 + 0.5
             return xa, xb
 
